@@ -16,6 +16,7 @@ CONSTANTS
   CraftToks = {"TA", "TV2"}
   MaxPresent = 1
   Calls = {"exchange", "craft"}
+  PumpPay = FALSE
   HealRounds = 0
   HealDt = 250
   Bound = 0
